@@ -13,7 +13,7 @@ package archiver
 // its net contribution is 0 once it has returned, on every exit path.
 //@ func (*archiver).worker
 //@   property C17
-//@   attr hooked inputCh,outputCh
+//@   attr hooked @C01 inputCh,outputCh
 //@   local nIn int = 0
 //@   local nOut int = 0
 //@   local inHand *models.Item = nil
